@@ -69,6 +69,8 @@ verus! {
 //@verify model_check_formula_dirty
 
 //@verify sanitize_colored_vertices
+//@verify sanitize_colors
+//@verify sanitize_vertices
 //@verify _model_check_multiple_trees
 //@verify model_check_multiple_trees
 //@verify _model_check_tree
